@@ -9,7 +9,7 @@ THETAS = [0.0, 0.4, 1.3, -2.1]
 
 def cfg(ms, maxn):
     c = ('INIT Init\nNEXT Next\nCHECK_DEADLOCK FALSE\nCONSTANTS\n MaxN = %d\n EmitOn = TRUE\n'
-         'INVARIANT Orthogonal\nINVARIANT Calibrated\nINVARIANT Emit\n') % maxn
+         'INVARIANT Orthogonal\nINVARIANT Calibrated\nINVARIANT GammaConsistent\nINVARIANT Emit\n') % maxn
     return c, dict(Ms=D.rng(ms), RadPts=D.tup(PL.RAD))
 
 
@@ -30,7 +30,8 @@ def decode(rec):
     sgn = 1 if lead > 0 else -1
     s = sgn / math.sqrt(N)
     return dict(m=rec['m'], n=rec['n'], pts=[Fraction(*p) for p in rec['pts']], normsq=N,
-                vals=[float(modq.to_fraction(v)) * s for v in rec['vals']], ders=[float(modq.to_fraction(v)) * s for v in rec['ders']])
+                vals=[float(modq.to_fraction(v)) * s for v in rec['vals']], ders=[float(modq.to_fraction(v)) * s for v in rec['ders']],
+                qders=[[float(modq.to_fraction(v)) * s for v in row] for row in rec.get('qders', [])])
 
 
 def replay_values(rec, ctx, np, P):
